@@ -1211,6 +1211,7 @@ func runC02(c *core.Ctx) core.Meta {
 	checkFlatRegCountMatchesMnemonic(c, LoadInstTables(c))
 	checkRegisterReadsFresh(c, "R02.23")
 	checkRetiredOnlyIfAccepted(c, "R02.24")
+	checkFlatHandlerLoopsConstant(c)
 	return core.Meta{Level: "other",
 		Explanation: "Necessary conditions of functional transparency of the timing mode, decided structurally: architectural state of timing wavefronts is changed only through the shared emulation ALU (who-may-call with a frozen allow-list), the initial-register code of the two modes is reduced to summaries (flag → reserved bytes → value; lane-id registers) that must be equal, the memory-instruction opcode sets of ALUs and timing units agree incl. write-back cases for transforming loads, cache flushes precede copies that touch dirty buffers, and the timing-only counters that make s_waitcnt / s_endpgm wait are decremented only for the last returning piece of an instruction (a fully masked memory instruction that decrements them lets a later consumer read its register before the data arrived).",
 		NotDecided:  "equality of final memory and PC traces (runtime quantities): coalescer / write-back value correctness, scoreboard hazards, caches and DRAM behaviour",
